@@ -212,13 +212,24 @@ func c20Shape(family string, p []int64) []byte {
 			if outerObj {
 				fmt.Fprintf(&sb, `"m%d":`, i)
 			}
+			// v>>3 & 3: the escaped string sits that many container levels below the sibling
+			esc, escKey := `"x\ny"`, `{"a\nb":1}`
+			for l := 0; l < v>>3&3; l++ {
+				if (l+v)%2 == 0 {
+					esc, escKey = `{"d":`+esc+`}`, `{"d":`+escKey+`}`
+				} else {
+					esc, escKey = `[`+esc+`]`, `[`+escKey+`]`
+				}
+			}
 			switch {
-			case sibObj && inKey:
+			case sibObj && inKey && v>>3&3 == 0:
 				fmt.Fprintf(&sb, `{"a\nb":1,"p":"%s"}`, padding)
+			case sibObj && inKey:
+				fmt.Fprintf(&sb, `{"w":%s,"p":"%s"}`, escKey, padding)
 			case sibObj:
-				fmt.Fprintf(&sb, `{"a":"x\ny","p":"%s"}`, padding)
+				fmt.Fprintf(&sb, `{"a":%s,"p":"%s"}`, esc, padding)
 			default:
-				fmt.Fprintf(&sb, `["x\ny","%s"]`, padding)
+				fmt.Fprintf(&sb, `[%s,"%s"]`, esc, padding)
 			}
 		}
 		if outerObj {
